@@ -30,6 +30,10 @@ pub struct Plan {
     /// are still pending in the flusher's buffer when close() starts
     #[serde(default)]
     pub burst: usize,
+    /// before the resident set: this many drained bursts of tiny entries that overflow the flush buffer (legal shedding);
+    /// the submit-queue threshold equals the flush buffer, as in the default configuration
+    #[serde(default)]
+    pub overflow_bursts: usize,
 }
 
 fn copies(cfg: &HCfg, dir: &std::path::Path) -> BTreeMap<Stamp, usize> {
@@ -55,6 +59,15 @@ async fn run_plan(plan: &Plan) -> Result<(Vec<(String, String)>, usize), String>
     }
     ex.step(&HOp::EvictMem).await;
     ex.step(&HOp::Wait).await;
+    for b in 0..plan.overflow_bursts as u64 {
+        ex.step(&HOp::HoldFlush).await;
+        for i in 0..500u64 {
+            ex.step(&HOp::Insert { k: 200_000 + b * 1000 + i, size: 28, loc: Loc::Default }).await;
+        }
+        ex.step(&HOp::EvictMem).await;
+        ex.step(&HOp::ReleaseFlush).await;
+        ex.step(&HOp::Wait).await;
+    }
     if plan.held_close {
         ex.step(&HOp::HoldWrites).await;
         for b in 0..plan.burst as u64 {
@@ -171,11 +184,13 @@ async fn run_plan(plan: &Plan) -> Result<(Vec<(String, String)>, usize), String>
                         }
                     }
                     Some(Seen::Miss) => {
-                        let must_persist = !plan.drop_without_close && cfg.flush_on_close && *loc != Loc::InMem && resident.contains(k) && !reclaimed;
+                        // dropping the last handle without close() runs the same close in the background: once the device is idle
+                        // again the resident set must be on disk as well
+                        let must_persist = cfg.flush_on_close && *loc != Loc::InMem && resident.contains(k) && !reclaimed;
                         if must_persist {
                             problems.push((
-                                format!("resident-entry-lost-at-close:{}", crate::hscript::policy_name(cfg.policy)),
-                                format!("key {k} ({loc:?}) was resident in memory before close() (flush_on_close on) but reads as a miss after reopen"),
+                                format!("resident-entry-lost-at-{}:{}", if plan.drop_without_close { "drop-without-close" } else { "close" }, crate::hscript::policy_name(cfg.policy)),
+                                format!("key {k} ({loc:?}) was resident in memory before {} (flush_on_close on) but reads as a miss after reopen", if plan.drop_without_close { "the last handle was dropped without close() (the implicit background close had gone idle)" } else { "close()" }),
                             ));
                         }
                     }
@@ -231,7 +246,17 @@ pub fn run(seed: u64, tier: &str, shard: usize, nshards: usize) -> ShardResult {
                 burst = (bpages * 7 / 10) / pp;
             }
         }
-        let plan = Plan { cfg, keys, size, drop_without_close, held_close, burst };
+        let mut overflow_bursts = 0;
+        if !held_close && !drop_without_close && cfg.policy == Policy::WriteOnEviction && rng.chance(1, 4) {
+            overflow_bursts = 4;
+            cfg.buffer_pool_size = 128 * 1024 * cfg.flushers;
+            cfg.submit_queue_threshold = 128 * 1024;
+            cfg.mem_capacity = cfg.mem_capacity.max(64 * 1024);
+        }
+        // the resident set must fit the (possibly smaller) flush buffer
+        let bpages = cfg.buffer_pool_size / cfg.flushers / hyb::PAGE;
+        let keys: Vec<(u64, Loc, bool)> = if overflow_bursts > 0 { keys.into_iter().take(bpages / 4 / (size + 64).div_ceil(hyb::PAGE).max(1)).collect() } else { keys };
+        let plan = Plan { cfg, keys, size, drop_without_close, held_close, burst, overflow_bursts };
         let r = rt.block_on(async { tokio::time::timeout(std::time::Duration::from_secs(300), run_plan(&plan)).await });
         res.evaluations += 1;
         match r {
@@ -249,6 +274,9 @@ pub fn run(seed: u64, tier: &str, shard: usize, nshards: usize) -> ShardResult {
                 res.count(&format!("plans_{:?}", plan.cfg.policy), 1);
                 if plan.drop_without_close {
                     res.count("plans_drop_without_close", 1);
+                }
+                if plan.overflow_bursts > 0 {
+                    res.count("plans_with_flush_buffer_overflow_bursts_before_close", 1);
                 }
                 if plan.held_close {
                     res.count("plans_close_with_device_writes_held", 1);
